@@ -562,9 +562,9 @@ func (u *Unit) execGo(fr *Frame, st *State, x *ssa.Go, where string) {
 		deferred := target != nil && startsWithDeferredDone(target)
 		if deferred {
 			// an unannounced goroutine that calls Done drives the counter negative: a panic (C13) besides the lost wait (C09)
-			u.oblige("spawn.tracked", []string{"C09", "C13"}, "go:"+name, st.pc, Cmp(">=", wg, IntLit(1)), where, "goroutine must be announced with wg.Add(1)")
+			u.oblige("spawn.tracked", []string{"C09", "C13", "C20", "C06"}, "go:"+name, st.pc, Cmp(">=", wg, IntLit(1)), where, "goroutine must be announced with wg.Add(1)")
 		} else {
-			u.structural("spawn.tracked", []string{"C09"}, "go:"+name, false, where, "goroutine body does not start with defer wg.Done()")
+			u.structural("spawn.tracked", []string{"C09", "C20"}, "go:"+name, false, where, "goroutine body does not start with defer wg.Done()")
 		}
 	}
 	if wg, ok := st.ghost["wgadd"]; ok && !wg.IsFalse() {
